@@ -299,7 +299,7 @@ class ImageWriter:
         name = basename + ext
         path = os.path.join(self.outdir, name)
         img_index = 0
-        while os.path.exists(path):
+        while os.path.lexists(path):
             name = "%s.%d%s" % (basename, img_index, ext)
             path = os.path.join(self.outdir, name)
             img_index += 1
